@@ -216,7 +216,7 @@ def grouping(sx, B):
 @condition("C15.verdict",
            anchors=["polyply.src.minimizer:optimize_geometry", "polyply.src.minimizer:renew_vs", "polyply.src.minimizer:compute_bond",
                     "polyply.src.minimizer:compute_angle"],
-           replay=False, must_cover=["optimised", "not optimised"],
+           replay=False, must_cover=["optimised", "not optimised", "virtual site without bonded terms"],
            stubs=["scipy.optimize.minimize (minimizer) -> arbitrary symbolic positions", "angle, dih (minimizer) -> an arbitrary symbolic angle per call (sign convention of dih: C15.dihedral_sign)"],
            outside=["that the optimiser finds a geometry"],
            bounds={"quick": {}, "thorough": {}})
@@ -241,6 +241,12 @@ def verdict(sx, B):
     block.interactions["dihedrals"] = [Interaction(atoms=["a", "b", "c", "v"], parameters=["2", dih0, "100"], meta={}),
                                        Interaction(atoms=["a", "b", "c", "v"], parameters=["9", "0", "1", "3"], meta={})]
     coords = {nm: np.array([0.1 * i, 0.2, 0.3]) for i, nm in enumerate(("a", "b", "c", "v"))}
+    bare = sx.sel("bonded_terms", ["bond, constraint, angle, impropers", "none (atoms held by neighbouring residues only)"]) != "bond, constraint, angle, impropers"
+    if bare:
+        # a residue whose own atoms share no bonded term but which still has a virtual site to construct
+        for t in ("bonds", "constraints", "angles", "dihedrals"):
+            del block.interactions[t]
+        sx.cover("virtual site without bonded terms")
 
     def fake_min(fun, x0, method=None, options=None):
         return {"x": np.array([P[nm][i] for nm in ("a", "b", "c", "v") for i in range(3)], dtype=object)}
@@ -256,8 +262,12 @@ def verdict(sx, B):
     dab = sum((P["a"][i] - P["b"][i]) ** 2 for i in range(3))
     dbc = sum((P["b"][i] - P["c"][i]) ** 2 for i in range(3))
     for i in range(3):
-        sx.claim(out["v"][i] * 2 == P["a"][i] + P["c"][i], "the virtual site of the returned template sits on its construction")
-        sx.claim(out["a"][i] == P["a"][i], "coordinates are returned per atom name")
+        sx.claim(out["v"][i] * 2 == out["a"][i] + out["c"][i], "the virtual site of the returned template sits on its construction")
+        if not bare:
+            sx.claim(out["a"][i] == P["a"][i] and out["c"][i] == P["c"][i], "coordinates are returned per atom name")
+    if bare:
+        sx.claim(ok is True or bool(ok), "nothing to optimise: reported as optimised")
+        return
     T = 0.05 + 1e-9       # the code compares with the float 0.05**2., which is not exactly 0.0025
     t = 0.05 - 1e-9
     if ok:
